@@ -30,6 +30,9 @@ pub struct Sent {
 	pub ans: Ans,
 	/// delivery handle: push sequence (ws) or request sequence (http)
 	pub seq: u64,
+	/// ws: nonce of the request entry the peer meant this element for (None: foreign id, or http where one reply
+	/// belongs to one request anyway). Ids alone do not tell requests apart if the client ever reuses one.
+	pub for_nonce: Option<u64>,
 }
 
 #[derive(Debug, Clone)]
@@ -179,7 +182,7 @@ fn check_batches(client_kind: &str, recs: &[BatchRec], id_of: &BTreeMap<u64, Str
 				}
 				for (i, (n, a)) in r.nonces.iter().zip(list).enumerate() {
 					let Some(id) = id_of.get(n) else { continue };
-					let own: Vec<&Sent> = sent.iter().filter(|s| &s.id == id && delivered_before(s.seq, r.done_stamp)).collect();
+					let own: Vec<&Sent> = sent.iter().filter(|s| &s.id == id && (s.for_nonce.is_none() || s.for_nonce == Some(*n)) && delivered_before(s.seq, r.done_stamp)).collect();
 					if own.iter().any(|s| &s.ans == a) {
 						if own.len() == 1 && i > 0 {
 							nontrivial = true;
@@ -188,7 +191,7 @@ fn check_batches(client_kind: &str, recs: &[BatchRec], id_of: &BTreeMap<u64, Str
 					}
 					// someone else's answer?
 					if let Some(o) = sent.iter().find(|s| &s.ans == a) {
-						rt::violate(P, "misplaced-entry", client_kind.to_string(), format!("batch {:?}: entry {i} (id {id}) was filled with {a:?}, which the peer sent for id {}", r.nonces, o.id));
+						rt::violate(P, "misplaced-entry", client_kind.to_string(), format!("batch {:?}: entry {i} (id {id}) was filled with {a:?}, which the peer sent for id {} (request nonce {:?})", r.nonces, o.id, o.for_nonce));
 					} else if matches!(a, Ans::Ok(_)) {
 						rt::violate(P, "invented-entry", client_kind.to_string(), format!("batch {:?}: entry {i} (id {id}) holds {a:?}, which the peer never sent", r.nonces));
 					}
@@ -234,11 +237,12 @@ pub async fn scenario_ws() {
 		let (wire, sent, modes) = (wire.clone(), sent.clone(), modes.clone());
 		rt::spawn("peer", async move {
 			let mut ctr = 1_000_000u64;
-			// outstanding: (ids, is_batch)
-			let mut outstanding: Vec<(Vec<Value>, bool)> = Vec::new();
-			let reg = |m: super::OutMsg, o: &mut Vec<(Vec<Value>, bool)>| match parse_out(&m.text) {
-				Parsed::Call { id, .. } => o.push((vec![id], false)),
-				Parsed::Batch(es) => o.push((es.iter().filter_map(|e| if let Parsed::Call { id, .. } = e { Some(id.clone()) } else { None }).collect(), true)),
+			// outstanding: ((id, nonce) per entry, is_batch)
+			type Out = Vec<(Vec<(Value, Option<u64>)>, bool)>;
+			let mut outstanding: Out = Vec::new();
+			let reg = |m: super::OutMsg, o: &mut Out| match parse_out(&m.text) {
+				Parsed::Call { id, params, .. } => o.push((vec![(id, nonce_of(&params))], false)),
+				Parsed::Batch(es) => o.push((es.iter().filter_map(|e| if let Parsed::Call { id, params, .. } = e { Some((id.clone(), nonce_of(params))) } else { None }).collect(), true)),
 				_ => {}
 			};
 			loop {
@@ -257,11 +261,12 @@ pub async fn scenario_ws() {
 					1 => rt::yield_n(1).await,
 					_ => {
 						let k = rt::draw("which", outstanding.len() as u32) as usize;
-						let (ids, is_batch) = outstanding.remove(k);
+						let (entries, is_batch) = outstanding.remove(k);
+						let ids: Vec<Value> = entries.iter().map(|e| e.0.clone()).collect();
 						if !is_batch {
 							let a = fresh_ans(&mut ctr);
 							let seq = wire.push_text(ans_to_text(&ids[0], &a));
-							sent.lock().unwrap().push(Sent { id: ids[0].to_string(), ans: a, seq });
+							sent.lock().unwrap().push(Sent { id: ids[0].to_string(), ans: a, seq, for_nonce: entries[0].1 });
 							continue;
 						}
 						let others: Vec<usize> = outstanding.iter().enumerate().filter(|(_, o)| o.1).map(|(i, _)| i).collect();
@@ -274,21 +279,24 @@ pub async fn scenario_ws() {
 							Mode::Foreign => "reply.foreign",
 							Mode::Mix => "reply.mix",
 						});
-						let mut els = build_reply(&ids, mode, &mut ctr, id_str);
+						let nonce_in = |list: &[(Value, Option<u64>)], id: &Value| list.iter().find(|e| &e.0 == id).and_then(|e| e.1);
+						let mut els: Vec<(Value, Ans, Option<u64>)> = build_reply(&ids, mode, &mut ctr, id_str).into_iter().map(|(i, a)| { let n = nonce_in(&entries, &i); (i, a, n) }).collect();
 						if mode == Mode::Mix {
 							// merge with the complete reply of another outstanding batch, in one array
 							let j = others[rt::draw("mix_with", others.len() as u32) as usize];
-							let (ids2, _) = outstanding.remove(j);
+							let (entries2, _) = outstanding.remove(j);
+							let ids2: Vec<Value> = entries2.iter().map(|e| e.0.clone()).collect();
 							let more = build_reply(&ids2, Mode::Full, &mut ctr, id_str);
-							for e in more {
+							for (i, a) in more {
 								let at = rt::draw("mix_at", els.len() as u32 + 1) as usize;
-								els.insert(at, e);
+								let n = nonce_in(&entries2, &i);
+								els.insert(at, (i, a, n));
 							}
 						}
-						let text = format!("[{}]", els.iter().map(|(i, a)| ans_to_text(i, a)).collect::<Vec<_>>().join(","));
+						let text = format!("[{}]", els.iter().map(|(i, a, _)| ans_to_text(i, a)).collect::<Vec<_>>().join(","));
 						let seq = wire.push_text(text);
-						for (i, a) in els {
-							sent.lock().unwrap().push(Sent { id: i.to_string(), ans: a, seq });
+						for (i, a, n) in els {
+							sent.lock().unwrap().push(Sent { id: i.to_string(), ans: a, seq, for_nonce: n });
 						}
 					}
 				}
@@ -354,7 +362,7 @@ pub async fn scenario_ws() {
 	check_batches("ws", &recs.lock().unwrap(), &id_of, &sent_v, &delivered_before, all_friendly);
 	for (n, st, res) in singles.lock().unwrap().iter() {
 		if let (Ok(a), Some(id)) = (res, id_of.get(n)) {
-			if !sent_v.iter().any(|s| &s.id == id && &s.ans == a && delivered_before(s.seq, *st)) {
+			if !sent_v.iter().any(|s| &s.id == id && (s.for_nonce.is_none() || s.for_nonce == Some(*n)) && &s.ans == a && delivered_before(s.seq, *st)) {
 				rt::violate(P, "single-call-wrong-answer", "ws", format!("single call nonce={n} id={id} completed with {a:?}, not sent for that id"));
 			}
 		} else if let (Err(e), true) = (res, all_friendly) {
@@ -418,7 +426,7 @@ impl tower::Service<HttpRequest> for Backend {
 						this.id_of.lock().unwrap().insert(n, id.to_string());
 					}
 					let a = fresh_ans(&mut ctr);
-					this.sent.lock().unwrap().push(Sent { id: id.to_string(), ans: a.clone(), seq });
+					this.sent.lock().unwrap().push(Sent { id: id.to_string(), ans: a.clone(), seq, for_nonce: None });
 					ans_to_text(&id, &a)
 				}
 				Parsed::Batch(es) => {
@@ -443,7 +451,7 @@ impl tower::Service<HttpRequest> for Backend {
 					let els = build_reply(&ids, mode, &mut ctr, this.id_str);
 					let t = format!("[{}]", els.iter().map(|(i, a)| ans_to_text(i, a)).collect::<Vec<_>>().join(","));
 					for (i, a) in els {
-						this.sent.lock().unwrap().push(Sent { id: i.to_string(), ans: a, seq });
+						this.sent.lock().unwrap().push(Sent { id: i.to_string(), ans: a, seq, for_nonce: None });
 					}
 					t
 				}
